@@ -272,39 +272,35 @@ fn ks_definitional(ctx: &mut Ctx, fl: Flavor) {
         return ctx.violation(&format!("{}/output/{}", ctx.prop, name), det);
     }
     // ---------------- what the cipher was asked to encrypt
+    // Only containment is demanded: every counter block the definition names must have been
+    // presented to the cipher at some point of the history (construction included: *when* BelT's
+    // s0 = E(IV) is computed is not part of the definition), in any order (a batch may be generated
+    // back to front or ahead of time). With a cipher only the harness knows, correct output already
+    // implies this; the log turns "wrong output" into "wrong counter block i".
     if ctx.cfg.spied {
-        if let Some(bad) = evs.iter().chain(ctor_evs.iter()).find(|e| e.dir != Dir::E) {
-            return ctx.violation(&format!("{}/direction/{}", ctx.prop, name), format!("cipher used in direction {:?}", bad.dir));
+        if s0.is_some() && !ctor_evs.iter().chain(evs.iter()).any(|e| e.dir == Dir::E && e.inp == iv) {
+            return ctx.violation(
+                &format!("{}/ctor-cipher-input/{}", ctx.prop, name),
+                format!("the IV was never encrypted ({} cipher calls during construction, {} afterwards)", ctor_evs.len(), evs.len()),
+            );
         }
-        if let Some(s0) = s0 {
-            let _ = s0;
-            if !ctor_evs.iter().any(|e| e.inp == iv) {
-                return ctx.violation(
-                    &format!("{}/ctor-cipher-input/{}", ctx.prop, name),
-                    format!("construction never encrypted the IV ({} cipher calls)", ctor_evs.len()),
-                );
-            }
-        }
-        let mut pos = 0;
+        let seen: std::collections::HashSet<&[u8]> = evs.iter().chain(ctor_evs.iter()).filter(|e| e.dir == Dir::E).map(|e| e.inp.as_slice()).collect();
         for j in 0..nb {
             let want_in = model::ks_input(ctx.rc.as_ref(), fl, &iv, i0 + j as u128);
-            match evs[pos..].iter().position(|e| e.inp == want_in) {
-                Some(k) => pos += k + 1,
-                None => {
-                    let seen = evs.get(j).map(|e| hex_short(&e.inp)).unwrap_or_else(|| "<none>".into());
-                    return ctx.violation(
-                        &format!("{}/counter-block/{}", ctx.prop, name),
-                        format!(
-                            "keystream block {} (start {} + {}): the definition needs E({}) but the cipher was asked for {} ({} calls in total)",
-                            i0 + j as u128,
-                            i0,
-                            j,
-                            hex_short(&want_in),
-                            seen,
-                            evs.len()
-                        ),
-                    );
-                }
+            if !seen.contains(want_in.as_slice()) {
+                let got = evs.get(j).map(|e| hex_short(&e.inp)).unwrap_or_else(|| "<none>".into());
+                return ctx.violation(
+                    &format!("{}/counter-block/{}", ctx.prop, name),
+                    format!(
+                        "keystream block {} (start {} + {}): the definition needs E({}) but the cipher was asked for {} ({} calls in total)",
+                        i0 + j as u128,
+                        i0,
+                        j,
+                        hex_short(&want_in),
+                        got,
+                        evs.len()
+                    ),
+                );
             }
         }
         for call in [&evs] {
